@@ -510,6 +510,13 @@ func RunImpl(c *Case) string {
 				}
 			}
 			fmt.Fprintf(&sb, " t%d=%s", i, t)
+			// GetVariable, as a host would call it after the run: the variables given with SetVariable and
+			// a few names a script may or may not have assigned
+			var as []string
+			for _, nm := range apiProbeNames(c) {
+				as = append(as, hexs(nm)+":"+showValue(e.GetVariable(nm)))
+			}
+			fmt.Fprintf(&sb, " a%d=%s", i, strings.Join(as, ","))
 		}
 		if has(c.Show, "stack") {
 			fmt.Fprintf(&sb, " k%d=%d", i, e.VerifMachine().VerifStackSize())
@@ -649,4 +656,20 @@ func buildObj(h HV) (obj interface{}, errText string) {
 		}
 	}()
 	return h.Interface(), ""
+}
+
+// apiProbeNames: the names GetVariable is asked for after every run of an API case
+func apiProbeNames(c *Case) []string {
+	names := []string{"v", "w", "x", "unset", "neverAssigned", "OPTIMIZE"}
+	seen := map[string]bool{}
+	for _, n := range names {
+		seen[n] = true
+	}
+	for _, v := range c.Vars {
+		if !seen[v.Name] {
+			seen[v.Name] = true
+			names = append(names, v.Name)
+		}
+	}
+	return names
 }
